@@ -13,6 +13,14 @@ CLAIMED = {
    "Proof of the transformer clause: for every operator in the property's quantifier the implemented state transformer equals the ISO 32000 one as polynomials over the rationals in the pre-state cells and operands (straight-line SSA value numbering with callees inlined; every cell of the graphics state is compared, including the frame cells that must not change), save/restore is field-complete over pointer-free fields, and each operator case binds operand k to argument k in both interpreters. By induction over operator sequences this covers all programs, matrices and nesting depths; what is assumed is real (not float) arithmetic.",
    "Trusted: go/ssa construction, the hand-written ISO 32000 specification polynomials in rules/c08.go, exact-real reading of float64; glyph advances (Tj/TJ) and rise scaling are outside the clause.",
    "polynomial value numbering of SSA (abstract interpretation over Q[x]) + dominance/dataflow binding checks", "DESIGN.md §4 C08"),
+ "C05": ("other",
+   "Structural necessary conditions of exact inversion, decided from the typed program: filter-name dispatch table vs ISO 32000 (long+abbreviated names per clause, decoders, erroring default), chain order/threading/per-stage parameters on the SSA of Stream.Decode, predictor dispatch and row-tag tables, exact index polynomials and guards of every PNG/TIFF neighbour access plus row geometry (polynomial normalisation of index expressions), the Paeth selection's comparison structure against the PNG specification, and exact 256-entry denotations of the ASCII filters' character classes. Numeric results at run time are not decided.",
+   "Trusted: go/ssa, the hand-written reference tables (ISO 32000 filter names, PNG spec offsets); integer index arithmetic read without overflow; zlib and base-85 arithmetic are outside the check.",
+   "table extraction + SSA dataflow + polynomial normalisation of index expressions + exhaustive byte-class denotation", "DESIGN.md §4 C05"),
+ "C10": ("other",
+   "Structural necessary conditions decided on every run: builder methods are pure (return clone(), no write or append through the receiver, closed over callee write summaries), clone functions are field-complete with fresh reference fields, every terminal operation defers Close on all paths after a successful open, every os.Open/zip.OpenReader handle is closed on error paths and owned on success, Close methods are idempotent in shape, resolvePages range-checks, de-duplicates and sorts, and the page number stamped on model pages survives AddPage.",
+   "Trusted: go/ssa, VTA call graph for callee write summaries; the table of documented non-terminal operations (PageCount, IsCharacterLevel, IsMultiColumn, Close); that a selection yields exactly the per-page results is not decided (needs C01).",
+   "SSA effect summaries + CFG must-pass-through (defer Close, resource pairing) + guard dominance", "DESIGN.md §4 C10"),
 }
 
 NOT_BUILT = "rules for this property are not built yet in this revision of /verif (see DESIGN.md §4 for the plan)"
